@@ -301,6 +301,7 @@ fn check_case(prop: &str, e: &Entry, i: usize, v: &Val, st: &mut Stats, thorough
             for kcut in ks {
                 let d = (e.dec)(&b[..kcut]);
                 st.transitions += 1;
+                st.validated += 1;
                 match &d.out {
                     Out::Err(_) => st.bump("Err"),
                     o => {
